@@ -181,6 +181,9 @@ def rdflib_write_case(draw, max_len=14, phys=None):
         "entry": entry,
         "phys": phys,
         "empty_graphs": empty_graphs,
+        # the rdflib objects handed over are sometimes equal-but-not-identical copies of what a fresh build gives
+        # (a Dataset that went through pickle / deepcopy, terms rebuilt from strings): identity must not matter
+        "object_copy": draw(st.sampled_from([None, None, "pickle", "deepcopy"])),
         "logical": logical,
         "delimited": delimited,
         "frame_size": draw(gen.frame_sizes),
@@ -215,6 +218,18 @@ def rdflib_container(stmts, phys, bindings=None, empty_graphs=()):
     return g
 
 
+def _copied(obj, how):
+    if how == "pickle":
+        import pickle
+
+        return pickle.loads(pickle.dumps(obj))
+    if how == "deepcopy":
+        import copy
+
+        return copy.deepcopy(obj)
+    return obj
+
+
 def write_rdflib(case):
     """-> (bytes, delimited)."""
     from pyjelly.integrations.rdflib import serialize as rser
@@ -224,7 +239,16 @@ def write_rdflib(case):
     phys = case["phys"]
 
     def rdflib_container(stmts, phys):  # the case's container, with its registered-but-empty graphs
-        return globals()["rdflib_container"](stmts, phys, empty_graphs=case.get("empty_graphs"))
+        g = globals()["rdflib_container"](stmts, phys, empty_graphs=case.get("empty_graphs"))
+        return _copied(g, case.get("object_copy"))
+
+    def native(stmts):
+        out = pyj.conv_stmts(stmts, "rdflib")
+        if case.get("object_copy"):  # statement generators: every IRI rebuilt from its string form
+            import rdflib
+
+            out = [type(x)(*[rdflib.URIRef(str(t)) if type(t) is rdflib.URIRef else t for t in x]) for x in out]
+        return out
 
     if entry in ("serialize", "serialize_dest"):
         g = rdflib_container(stmts, phys)
@@ -260,9 +284,9 @@ def write_rdflib(case):
                 if os.path.exists(p_):
                     os.unlink(p_)
     if entry == "flat_to_file":
-        rser.flat_stream_to_file((s for s in pyj.conv_stmts(stmts, "rdflib")), out, options=pyj.make_options(case))
+        rser.flat_stream_to_file((s for s in native(stmts)), out, options=pyj.make_options(case))
     elif entry == "flat_to_file_default":
-        rser.flat_stream_to_file((s for s in pyj.conv_stmts(stmts, "rdflib")), out)
+        rser.flat_stream_to_file((s for s in native(stmts)), out)
     elif entry == "grouped_to_file":
         rser.grouped_stream_to_file((x for x in [rdflib_container(stmts, phys)]), out, options=pyj.make_options(case))
     elif entry == "grouped_to_file_default":
